@@ -56,6 +56,7 @@ class Env:
         self.gate = None     # callable(kind): blocks a callback thread at its next shared-state operation
         self.pending_stall = 0   # the main thread is descheduled for this long right after select() returns
         self.in_select = False
+        self.post_stall = 0      # a stall that is armed by the next return of select()
 
     # --- time module double
     def time(self):
@@ -73,6 +74,8 @@ class Env:
             return self._select(rlist, timeout)
         finally:
             self.in_select = False
+            self.pending_stall += self.post_stall
+            self.post_stall = 0
 
     def _select(self, rlist, timeout):
         entry = self.us
@@ -291,7 +294,10 @@ def run_history(hist, paste_threshold=8, final_drain=True):
                     rec.append({"k": "tick"})
                 elif k == "stall":
                     # takes effect at the main thread's next clock reading outside select()
-                    env.pending_stall += a.get("us", TICK)
+                    if a.get("post"):
+                        env.post_stall += a.get("us", TICK)
+                    else:
+                        env.pending_stall += a.get("us", TICK)
             env.perform = perform
 
             def request(T):
@@ -338,7 +344,7 @@ def run_history(hist, paste_threshold=8, final_drain=True):
                     j += 1
                 env.script = list(hist[i:j])
                 request(a["T"])
-                env.pending_stall = 0
+                env.pending_stall = env.post_stall = 0
                 left = env.script
                 env.script = []
                 for b in left:          # not consumed while blocked: they happen before the next request
